@@ -279,6 +279,13 @@ func (u *Unit) entryHeapAxioms(name string, h Term) {
 		u.D.Axiom("maplen-nonneg:"+h.S, Forall([]Term{r}, le(IntLit(0), Select(h, r)), []Term{Select(h, r)}).S)
 		return
 	}
+	if strings.HasPrefix(string(es), "(Array ") && !strings.HasPrefix(string(es), "(Array Int ") {
+		// map value heaps
+		if f, ok := u.closedHeapFact(h, IntLit(1)); ok {
+			u.D.Axiom("closed:"+name, f.S)
+		}
+		return
+	}
 	switch {
 	case es == SRef:
 		r := u.D.Bound("r", SRef)
@@ -298,6 +305,52 @@ func (u *Unit) entryHeapAxioms(name string, h Term) {
 			u.D.Axiom("closed:"+name, Forall([]Term{r, i}, Imp(old, App("<=", SBool, App("birth", SInt, cell), IntLit(0))), []Term{cell}).S)
 		} else if inner == SSlice {
 			u.D.Axiom("closed:"+name, Forall([]Term{r, i}, Imp(old, And(App("<=", SBool, App("birth", SInt, App("s_base", SRef, cell)), IntLit(0)), u.validSliceT(cell))), []Term{cell}).S)
+		}
+	}
+}
+
+// every reference stored in heap h under a holder that exists (allocated before bound) was itself allocated before bound:
+// a heap never contains a reference to something allocated later.  Returns false-y (empty term) when the heap stores no references.
+func (u *Unit) closedHeapFact(h Term, bound Term) (Term, bool) {
+	es := arrElemSort(h.Sort)
+	u.birthDecl()
+	r := u.D.Bound("r", SRef)
+	holder := lt(App("birth", SInt, r), bound)
+	before := func(t Term) Term { return lt(App("birth", SInt, t), bound) }
+	switch {
+	case es == SRef:
+		return Forall([]Term{r}, Imp(holder, before(Select(h, r))), []Term{Select(h, r)}), true
+	case es == SSlice:
+		return Forall([]Term{r}, Imp(holder, before(App("s_base", SRef, Select(h, r)))), []Term{Select(h, r)}), true
+	case strings.HasPrefix(string(es), "(Array "):
+		inner := arrElemSort(es)
+		ksort := arrKeySort(es)
+		i := u.D.Bound("i", ksort)
+		cell := Select(Select(h, r), i)
+		if inner == SRef {
+			return Forall([]Term{r, i}, Imp(holder, before(cell)), []Term{cell}), true
+		}
+		if inner == SSlice {
+			return Forall([]Term{r, i}, Imp(holder, before(App("s_base", SRef, cell))), []Term{cell}), true
+		}
+	}
+	return Term{}, false
+}
+
+// after heaps were replaced by unknown ones (loop head, call, callback): the new heaps are closed at the current clock
+func (u *Unit) assumeClosedHeaps(env *Env) {
+	var names []string
+	for n := range env.heaps {
+		names = append(names, n)
+	}
+	sort.Strings(names)
+	for _, n := range names {
+		h := env.heaps[n]
+		if !(strings.HasPrefix(h.S, "hv_") || strings.HasPrefix(h.S, "hc_") || strings.HasPrefix(h.S, "cb_")) {
+			continue
+		}
+		if f, ok := u.closedHeapFact(h, env.clock); ok {
+			env.assume(f)
 		}
 	}
 }
@@ -1280,6 +1333,7 @@ func (u *Unit) havocLoop(env *Env, li loopInfo) {
 	nc := u.D.Fresh("clk", SInt)
 	env.assume(le(env.clock, nc))
 	env.clock = nc
+	u.assumeClosedHeaps(env)
 	for _, obj := range li.modVars {
 		if t, ok := env.vars[obj]; ok {
 			u.knownRefsOf(env, t)
